@@ -38,6 +38,27 @@ def order_case(args) -> dict:
                                 continue
                             out["passes"] += 1
                             seqs[(hname, iface, par, p)] = seq
+            # the same again after finite SHUFFLED passes on the same handles
+            # (state left behind by an earlier pass must not leak into the
+            # unshuffled order)
+            for hname, h in (("kept", kept), ("reopened", fresh)):
+                for iface in dsfamily.interfaces(fmt, with_rust=True):
+                    try:
+                        D.ids(h, split, iface, shuffle=3)
+                        D.ids(h, split, iface, shuffle=len(want) + 5)
+                    except Exception:  # pylint: disable=broad-except
+                        pass
+                for iface in dsfamily.interfaces(fmt, with_rust=True):
+                    try:
+                        seqs[(hname, iface, 2 if iface != "sync" else None,
+                              "after shuffled passes")] = D.ids(
+                                  h, split, iface)
+                        out["passes"] += 1
+                    except Exception as e:  # pylint: disable=broad-except
+                        out["bad"].append(
+                            ("raises", iface,
+                             f"{name}/{split} {iface} after shuffled "
+                             f"passes: {type(e).__name__}: {str(e)[:120]}"))
             if not seqs:
                 continue
             base_key = ("reopened", "sync", None, 0)
